@@ -18,6 +18,7 @@ from ..values import (Const, Sym, CRef, FRef, MRef, ERef, Bound, BoundB, Obj,
                       Tup, App, New, Raise, Coll, walk)
 from ..interp import Interp, Hooks
 from ..effects import Effects, _SummaryHooks, _is_gen, _is_static
+from ..fields import labels_field
 from ..report import Finding, RuleResult, floor, Attempts, adopt
 from . import c07
 
@@ -49,7 +50,6 @@ PARAM_TYPES = {
 }
 FIELD_TYPES = {
     'state': STATE, 'name': ATOM, 'S0': SET_S,
-    '_labels': ('b', 'dict', STATE, ('b', 'set', ATOM)),
 }
 
 
@@ -96,6 +96,8 @@ class Opaque(object):
             self.by_name.setdefault(f.name, []).append(f)
         self.field_types = dict(FIELD_TYPES)
         self.field_types[adj] = ('b', 'dict', STATE, SET_S)
+        self.field_types[labels_field(prog)] = (
+            'b', 'dict', STATE, ('b', 'set', ATOM))
         self.observations = []
         self.failed = {}
         self.param_types = {}       # (qn, index) -> set of types seen
